@@ -91,6 +91,11 @@ Lemma sub_sub_cancel (x y t : V) : (x -v t) -v (y -v t) = x -v y.
 Proof.
   rewrite (ssub_def x t), (ssub_def y t). apply sub_add_cancel_r.
 Qed.
+Lemma sub_split (p q r : V) : p -v q = (p -v r) +v (r -v q).
+Proof.
+  rewrite !ssub_def, (add_assoc S L p), <- (add_assoc S L ((-1) *v r) r),
+    (add_comm S L ((-1) *v r) r), add_opp, add_0_l. reflexivity.
+Qed.
 Lemma sub_add_sub (x t0 t : V) : x -v (t0 +v t) = (x -v t) -v t0.
 Proof.
   rewrite !ssub_def, (scal_add_r S L), (add_assoc S L). f_equal. apply (add_comm S L).
@@ -504,13 +509,17 @@ Hypothesis L1 : SpaceLaws S1.
 Hypothesis L2 : SpaceLaws S2.
 
 (* D is the (bounded linear) Frechet derivative of A at x *)
+Definition is_linmap (D : car S1 -> car S2) : Prop :=
+  (forall u v, D (sadd S1 u v) = sadd S2 (D u) (D v)) /\
+  (forall a u, D (sscal S1 a u) = sscal S2 a (D u)).
 Definition is_deriv (A : car S1 -> car S2) (x : car S1) (D : car S1 -> car S2) : Prop :=
   (exists C, 0 <= C /\ forall h, norm S2 (D h) <= C * norm S1 h) /\
-  forall eps, 0 < eps -> exists delta, 0 < delta /\
+  (forall eps, 0 < eps -> exists delta, 0 < delta /\
     forall h, norm S1 h < delta ->
-      norm S2 (@ssub R _ S2 (@ssub R _ S2 (A (sadd S1 x h)) (A x)) (D h)) <= eps * norm S1 h.
+      norm S2 (@ssub R _ S2 (@ssub R _ S2 (A (sadd S1 x h)) (A x)) (D h)) <= eps * norm S1 h) /\
+  is_linmap D.
 
-(* chain rule: gradient of f o A at x is D^* (grad f (A x)) *)
+(* chain rule: gradient of f o A at x is adjoint(D) (grad f (A x)) *)
 Lemma is_grad_comp (f : car S2 -> R) (A : car S1 -> car S2) (x : car S1)
       (D : car S1 -> car S2) (g : car S2) (Dadj_g : car S1) :
   is_deriv A x D ->
@@ -518,7 +527,7 @@ Lemma is_grad_comp (f : car S2 -> R) (A : car S1 -> car S2) (x : car S1)
   is_grad S2 f (A x) g ->
   is_grad S1 (fun y => f (A y)) x Dadj_g.
 Proof.
-  intros [[C [HC HDb]] HA] Hadj Hg eps He.
+  intros [[C [HC HDb]] [HA _]] Hadj Hg eps He.
   pose proof (norm_nonneg S2 g) as Hng.
   set (e2 := Rmin 1 (eps / (2 * (norm S2 g + 1)))).
   assert (He2 : 0 < e2).
@@ -582,3 +591,80 @@ Proof.
 Qed.
 
 End TwoSpaces.
+
+(* composition of differentiable operators *)
+Section ThreeSpaces.
+Variables S1 S2 S3 : RSpace.
+Hypothesis L1 : SpaceLaws S1.
+Hypothesis L2 : SpaceLaws S2.
+Hypothesis L3 : SpaceLaws S3.
+
+Lemma is_deriv_comp (A : car S1 -> car S2) (B : car S2 -> car S3) (x : car S1)
+      (DA : car S1 -> car S2) (DB : car S2 -> car S3) :
+  is_deriv S1 S2 A x DA -> is_deriv S2 S3 B (A x) DB ->
+  is_deriv S1 S3 (fun y => B (A y)) x (fun h => DB (DA h)).
+Proof.
+  intros [[CA [HCA HbA]] [HA [HaddA HscA]]] [[CB [HCB HbB]] [HB [HaddB HscB]]].
+  split; [|split].
+  - exists (CB * CA). split; [apply Rmult_le_pos; assumption|]. intro h.
+    specialize (HbB (DA h)). specialize (HbA h).
+    assert (CB * norm S2 (DA h) <= CB * (CA * norm S1 h)) by (apply Rmult_le_compat_l; assumption). lra.
+  - intros eps He.
+    set (e2 := Rmin 1 (eps / (2 * (CB + 1)))).
+    assert (He2 : 0 < e2) by (apply Rmin_pos; [lra|apply Rdiv_lt_0_compat; lra]).
+    set (e1 := eps / (2 * (CA + 2))).
+    assert (He1 : 0 < e1) by (apply Rdiv_lt_0_compat; lra).
+    destruct (HA e2 He2) as [dA [HdA HrA]].
+    destruct (HB e1 He1) as [dB [HdB HrB]].
+    exists (Rmin dA (dB / (CA + 2))). split.
+    { apply Rmin_pos; [assumption|apply Rdiv_lt_0_compat; lra]. }
+    intros h Hh.
+    pose proof (Rmin_l dA (dB / (CA + 2))). pose proof (Rmin_r dA (dB / (CA + 2))).
+    pose proof (norm_nonneg S1 h) as Hnh.
+    set (k := @ssub R _ S2 (A (sadd S1 x h)) (A x)).
+    specialize (HrA h ltac:(lra)). fold k in HrA. specialize (HbA h).
+    assert (Hk : norm S2 k <= (e2 + CA) * norm S1 h).
+    { assert (E : k = sadd S2 (@ssub R _ S2 k (DA h)) (DA h)).
+      { rewrite (add_comm S2 L2). symmetry. apply (add_sub_cancel S2 L2). }
+      rewrite E. pose proof (norm_triangle S2 L2 (@ssub R _ S2 k (DA h)) (DA h)). lra. }
+    assert (He21 : e2 <= 1) by apply Rmin_l.
+    assert (Hk2 : norm S2 k < dB).
+    { assert ((e2 + CA) * norm S1 h <= (CA + 2) * norm S1 h) by nra.
+      assert ((CA + 2) * norm S1 h < dB).
+      { apply Rmult_lt_reg_r with (/ (CA + 2)); [apply Rinv_0_lt_compat; lra|].
+        replace ((CA + 2) * norm S1 h * / (CA + 2)) with (norm S1 h) by (field; lra).
+        unfold Rdiv in *. lra. }
+      lra. }
+    specialize (HrB k Hk2).
+    assert (EA : sadd S2 (A x) k = A (sadd S1 x h)) by apply (add_sub_cancel S2 L2).
+    rewrite EA in HrB.
+    (* B(A(x+h)) - B(A x) - DB(DA h) = [B(..) - B(A x) - DB k] + DB (k - DA h) *)
+    set (u := @ssub R _ S3 (@ssub R _ S3 (B (A (sadd S1 x h))) (B (A x))) (DB k)) in *.
+    assert (Esplit : @ssub R _ S3 (@ssub R _ S3 (B (A (sadd S1 x h))) (B (A x))) (DB (DA h))
+                     = sadd S3 u (DB (@ssub R _ S2 k (DA h)))).
+    { unfold u. rewrite (ssub_def S2 k (DA h)), HaddB, HscB, <- (ssub_def S3).
+      apply (sub_split S3 L3). }
+    rewrite Esplit.
+    eapply Rle_trans; [apply (norm_triangle S3 L3)|].
+    specialize (HbB (@ssub R _ S2 k (DA h))).
+    assert (T1 : norm S3 u <= eps / 2 * norm S1 h).
+    { assert (e1 * norm S2 k <= e1 * ((CA + 2) * norm S1 h)) by (apply Rmult_le_compat_l; nra).
+      assert (e1 * (CA + 2) = eps / 2) by (unfold e1; field; lra). nra. }
+    assert (T2 : norm S3 (DB (@ssub R _ S2 k (DA h))) <= eps / 2 * norm S1 h).
+    { assert (CB * norm S2 (@ssub R _ S2 k (DA h)) <= CB * (e2 * norm S1 h)) by (apply Rmult_le_compat_l; assumption).
+      assert (CB * e2 <= eps / 2).
+      { assert (e2 <= eps / (2 * (CB + 1))) by apply Rmin_r.
+        assert (CB * e2 <= CB * (eps / (2 * (CB + 1)))) by (apply Rmult_le_compat_l; lra).
+        assert (CB * (eps / (2 * (CB + 1))) <= eps / 2).
+        { replace (CB * (eps / (2 * (CB + 1)))) with (eps / 2 * (CB / (CB + 1))) by (field; lra).
+          assert (CB / (CB + 1) <= 1).
+          { apply Rmult_le_reg_r with (CB + 1); [lra|]. unfold Rdiv. rewrite Rmult_assoc, Rinv_l by lra. lra. }
+          nra. }
+        lra. }
+      nra. }
+    lra.
+  - split.
+    + intros a b. rewrite HaddA, HaddB. reflexivity.
+    + intros a b. rewrite HscA, HscB. reflexivity.
+Qed.
+End ThreeSpaces.
